@@ -7,7 +7,7 @@ EXPLANATION = ("K1 pairing: every removal of a routing entry in the driver loop 
                "Abandon request's own, never-answered ID is released in its arm; K3 Abandon: request [APPLICATION 16] INTEGER msgid and "
                "LdapOp::Abandon(msgid) carry the same parameter, and on every path of the request arm an Abandon can take - also one that leaves the arm before the kind of operation is looked at - the request is written to the transport and both routing entries of that ID are dropped (which fails the "
                "waiting caller); K4 every routing map has a removal site for each terminal event class (response, scrub, abandon); "
-               "K6 a stream finished before its end scrubs its own ID. Not decided: quiescence over arbitrary histories as a runtime "
+               "K6 a stream finished before its end scrubs its own ID; K9 an operation that cannot be handed to the driver (the request send fails: the connection has ended) releases, on every such path of the issue point, the ID it reserved. Not decided: quiescence over arbitrary histories as a runtime "
                "fact; futures dropped mid-flight.")
 TRUSTED = ['HashMap/HashSet remove semantics', 'dropping a oneshot::Sender fails its receiver']
 UNDECIDED = ['quiescence over arbitrary histories (reachability of the running system)', 'operation futures dropped mid-flight (no Drop-based release exists)']
@@ -209,3 +209,27 @@ def run(ctx):
             ctx.add('K6.early-finish-scrubs', '%s|%s' % (B.path, sname.split('::')[-1]), loc(B.root), any(own_id(a) for a in scrubbed),
                     'finish() of a stream that is not Done (state %s) has a path that does not scrub the stream\'s message ID (scrubbed: %s)%s'
                     % (sname.split('::')[-1], [absx.fmt(a)[:40] for a in scrubbed], ('; ' + SID.why_not(scrubbed[0])) if scrubbed else ''))
+
+    # K9 an operation that is never handed to the driver releases the ID reserved for it: in the issue point (op_call) every path on
+    # which the request send fails - the driver is gone, nobody will ever see or scrub this ID - removes the allocated ID from the
+    # in-use set before returning; otherwise the shared set grows by one entry per call made on a dead connection
+    O = hirq.Body(f, f.hir[C.op_call_path])
+    ctx.analysed['bodies'].add(C.op_call_path)
+    oouts, _I = sem.paths(f, O, result_combinators=True)
+    n_unsent = 0
+    for o in oouts:
+        if o.kind not in ('val', 'ret'):
+            continue
+        allocs = [sem.strip_site(('call', cal, args, None)) for i, cal, args, node in sem.calls(o, lambda c: c == C.alloc_path)]
+        sends = [(i, node) for i, cal, args, node in sem.calls(o, lambda c: c.endswith('UnboundedSender::<T>::send')) if sem.recv_ty(node) == anchors.T_REQ_SENDER]
+        if not allocs or not sends:
+            continue
+        sid = sends[0][1].get('id')
+        if not sem.failed(o, lambda v: sem.has(v, lambda x: x[0] == 'call' and x[3] == sid)):
+            continue
+        n_unsent += 1
+        released = [sem.strip_site(args[1]) for i, cal, args, node in sem.calls(o, lambda c: c.endswith('HashSet::<T, S, A>::remove') or c.endswith('HashSet::<T, S>::remove')) if len(args) > 1]
+        ctx.add('K9.unsent-operation-releases-its-id', C.op_call_path, loc(O.root), allocs[0] in released,
+                'when the request cannot be handed to the driver (the connection has ended) the operation returns an error but leaves the message ID it reserved in the in-use set '
+                '(released on this path: %s): every call made on a dead connection adds one entry that nothing ever removes' % ([absx.fmt(r)[:30] for r in released] or 'nothing'))
+    ctx.floor('K9', 'paths of the issue point on which the request send fails', n_unsent, 1)
